@@ -20,12 +20,15 @@ static struct pair lin_old, lin_new;   /* anchor before/after that step */
 static struct node *g_lin_lr;          /* lin_old.left->right.ptr at the moment of the step */
 static struct node *g_lin_rl;          /* lin_old.right->left.ptr at the moment of the step */
 static struct node *g_lin_nr, *g_lin_nl; /* lin_new.left->right.ptr / lin_new.right->left.ptr at the moment of the step */
+static T g_lin_owndata;                /* payload of the caller's new node at the moment of its publishing step */
 static T g_lin_ldata, g_lin_rdata;     /* payload of lin_old.left / lin_old.right at the moment of the step */
 static unsigned g_nsteps;              /* number of successful anchor CASes (own + helping); wraps, only differences are used */
 static struct pair g_step_old, g_step_new;   /* the last of them */
 static struct pair g_last_read;        /* last anchor value this call has read */
 static struct pair g_obs;              /* the anchor word this call last observed AND holds in a local (load / failed or successful CAS) */
 static struct node *g_inward_seen;     /* value this call last read from the inward link of the pushed end of g_obs */
+static int g_bl_idx; static bool g_bl_left; /* back link (cell index, which link) this call has read as still missing (stale word g_bl_seen) for the unstable g_obs; -1: none */
+static struct tptr g_bl_seen;
 static bool g_validated;               /* anchor found equal to g_obs after the last node link load */
 static struct node *g_own;             /* node allocated by this call and not yet published (push) */
 static T g_own_data;                   /* shadow copies of the fields of g_own (written only by this call) */
@@ -56,6 +59,13 @@ static bool g_quiescent;               /* true: no other thread (bounded sequent
 #define OWN_TEXT "stabilize / empty take no push or pop step: the only anchor step is (l,r,xpush) -> (l,r,stable)"
 #endif
 
+#define IDX_OF(p) ((p) == &g_n0 ? 0 : (p) == &g_n1 ? 1 : (p) == &g_n2 ? 2 : (p) == &g_n3 ? 3 : -1)
+#define CELL_L(i) ((i) == 0 ? g_n0.left : (i) == 1 ? g_n1.left : (i) == 2 ? g_n2.left : g_n3.left)
+#define CELL_R(i) ((i) == 0 ? g_n0.right : (i) == 1 ? g_n1.right : (i) == 2 ? g_n2.right : g_n3.right)
+#define BL_WORD (g_bl_left ? CELL_L(g_bl_idx) : CELL_R(g_bl_idx))
+/* ghosts that are pointers / indices stay well formed across loop havoc */
+#define GHOSTS_OK (g_bl_idx >= -1 && g_bl_idx <= 3 && INPOOL0(g_inward_seen))
+
 /* ---- environment ---- */
 static struct node *pick(void)
 {
@@ -84,6 +94,9 @@ static void havoc_shared(struct deque *d)
  *      (trusted: lemma units deque.lemma.* show every step keeps the invariant), except
  *        A-ABA : the anchor does not come back to the word this call last observed (g_obs) -- the ABA tag is taken to
  *                be sufficient; its 16-bit wrap-around is NOT decided here;
+ *        A-ABA-node : an unstable anchor moves on only after its missing back link was put in place (the guarantee
+ *                asserted in anchor_cas), and that link word does not come back to the stale (ptr, tag) word this
+ *                call had read from it (node-level ABA tag taken to be sufficient; NOT decided here);
  *        A-OWN : a node this call allocated and has not published is referenced by nobody and not written by others;
  *        payload fields are written only when a node is constructed (not havocked);
  *  (b) or the anchor stayed: then the only node-level write another thread can make is the one stabilize() makes --
@@ -97,6 +110,7 @@ static void interfere(struct deque *d)
     havoc_shared(d);
     VX_ASSUME(S_OK(g_q.anchor_));
     VX_ASSUME(!PEQ(g_q.anchor_, g_obs));
+    VX_ASSUME(g_bl_idx < 0 || !TPEQ(BL_WORD, g_bl_seen));
     VX_ASSUME(g_own == NULL || NOREF(g_q.anchor_, g_own));
   }
   else if (nondet_bool())
@@ -121,7 +135,7 @@ static struct pair anchor_load(struct deque *d)
   interfere(d);
   g_last_read = g_q.anchor_;
   g_obs = g_q.anchor_;
-  g_validated = false;
+  g_validated = false; g_bl_idx = -1; g_inward_seen = NULL;
   return g_q.anchor_;
 }
 /* deque_anchor::operator!=(pair) -- atomic load and compare */
@@ -148,10 +162,12 @@ static bool anchor_cas(struct deque *d, struct pair *expected, struct pair desir
     g_nsteps = g_nsteps + 1u;
     g_step_old = o; g_step_new = desired;
     g_obs = desired;
-    g_validated = false;
+    g_validated = false; g_bl_idx = -1; g_inward_seen = NULL;
     if (o.ltag != stable)
     {
+#if defined(U_STABILIZE) || defined(U_STABILIZE_LEFT) || defined(U_STABILIZE_RIGHT)
       VX_REACH("helping_step");
+#endif
       VX_ASSERT(T_STAB(o, desired), "an anchor in lpush/rpush state is only ever stabilized, (l,r,xpush,t) -> (l,r,stable,t+1): a pop or push step is taken only from a stable anchor");
       VX_ASSERT(BACKLINK_OK(o), "the anchor is stabilized only after the missing back link (l->right->left == l resp. r->left->right == r) is in place");
       VX_ASSERT(S_OK(g_q.anchor_), "a stabilizing step keeps the representation invariant at both ends");
@@ -167,6 +183,7 @@ static bool anchor_cas(struct deque *d, struct pair *expected, struct pair desir
       g_lin_rl = LNK_L(o.right);
       g_lin_nr = LNK_R(desired.left);
       g_lin_nl = LNK_L(desired.right);
+      g_lin_owndata = g_own != NULL ? DATA_OF(g_own) : 0;
       g_lin_ldata = DATA_OF(o.left);
       g_lin_rdata = DATA_OF(o.right);
       VX_ASSERT(OWN_OK(o, desired), OWN_TEXT);
@@ -183,7 +200,7 @@ static bool anchor_cas(struct deque *d, struct pair *expected, struct pair desir
   }
   *expected = g_q.anchor_;
   g_obs = g_q.anchor_;
-  g_validated = false;
+  g_validated = false; g_bl_idx = -1; g_inward_seen = NULL;
   return false;
 }
 /* std::atomic<tagged_ptr>::load on a node link */
@@ -194,6 +211,10 @@ static struct tptr node_load(struct deque *d, struct tptr *f)
   if ((g_obs.ltag == lpush && g_obs.left != NULL && f == &g_obs.left->right) ||
       (g_obs.ltag == rpush && g_obs.right != NULL && f == &g_obs.right->left))
     g_inward_seen = f->ptr;
+  else if (g_obs.ltag == lpush && g_inward_seen != NULL && f == &g_inward_seen->left && f->ptr != g_obs.left)
+  { g_bl_idx = IDX_OF(g_inward_seen); g_bl_left = true; g_bl_seen = *f; }
+  else if (g_obs.ltag == rpush && g_inward_seen != NULL && f == &g_inward_seen->right && f->ptr != g_obs.right)
+  { g_bl_idx = IDX_OF(g_inward_seen); g_bl_left = false; g_bl_seen = *f; }
   return *f;
 }
 /* std::atomic<tagged_ptr>::store on a node link: only ever on the caller's own unpublished node */
@@ -254,11 +275,11 @@ void dealloc_node(struct deque *self, struct node *n)
 
 /* `anchor_pair& lrs` of stabilize*, lowered: the reference is a pointer, the name stays */
 #define lrs (*lrs_ref)
-#define STAB_ASSIGNS g_q.anchor_, *lrs_ref, POOL_OBJECTS, g_nsteps, g_step_old, g_step_new, g_last_read, g_obs, g_inward_seen, g_validated
+#define STAB_ASSIGNS g_q.anchor_, *lrs_ref, POOL_OBJECTS, g_nsteps, g_step_old, g_step_new, g_last_read, g_obs, g_inward_seen, g_bl_idx, g_bl_left, g_bl_seen, g_validated
 /* precondition shared by the three: lrs is a word this thread read from (or installed in) the anchor and still holds as
  * its last observation; a node the caller has allocated but not published is private */
 #define STAB_PRE (self == &g_q && S_OK(g_q.anchor_) && A_OK(*lrs_ref) && PEQ(*lrs_ref, g_obs) && \
-                  (g_own == NULL || (INPOOL(g_own) && NOREF(g_q.anchor_, g_own))) && OWN_INTACT)
+                  (g_own == NULL || (INPOOL(g_own) && NOREF(g_q.anchor_, g_own))) && OWN_INTACT && GHOSTS_OK)
 /* nobody but the caller writes the caller's unpublished node: its fields equal the caller's shadow copies */
 #define OWN_INTACT (g_own == NULL || (LNK_L(g_own) == g_own_ll && LNK_R(g_own) == g_own_lr && DATA_OF(g_own) == g_own_data))
 
@@ -271,7 +292,7 @@ __CPROVER_ensures(g_nsteps - __CPROVER_old(g_nsteps) <= 1u)
 __CPROVER_ensures(g_nsteps != __CPROVER_old(g_nsteps) ==> (PEQ(g_step_old, __CPROVER_old(*lrs_ref)) && T_STAB(g_step_old, g_step_new) && g_step_old.ltag == lpush))
 /* frame: the representation invariant and the caller's private node are preserved */
 __CPROVER_ensures(S_OK(g_q.anchor_) && (g_own == NULL || NOREF(g_q.anchor_, g_own)))
-__CPROVER_ensures(OWN_INTACT)
+__CPROVER_ensures(OWN_INTACT && GHOSTS_OK)
 __CPROVER_assigns(STAB_ASSIGNS)
 //@LIFT stabilize_left
 
@@ -281,7 +302,7 @@ __CPROVER_requires(STAB_PRE && lrs_ref->ltag == rpush)
 __CPROVER_ensures(g_nsteps - __CPROVER_old(g_nsteps) <= 1u)
 __CPROVER_ensures(g_nsteps != __CPROVER_old(g_nsteps) ==> (PEQ(g_step_old, __CPROVER_old(*lrs_ref)) && T_STAB(g_step_old, g_step_new) && g_step_old.ltag == rpush))
 __CPROVER_ensures(S_OK(g_q.anchor_) && (g_own == NULL || NOREF(g_q.anchor_, g_own)))
-__CPROVER_ensures(OWN_INTACT)
+__CPROVER_ensures(OWN_INTACT && GHOSTS_OK)
 __CPROVER_assigns(STAB_ASSIGNS)
 //@LIFT stabilize_right
 
@@ -292,7 +313,7 @@ __CPROVER_requires(STAB_PRE && lrs_ref->ltag != stable)
 __CPROVER_ensures(g_nsteps - __CPROVER_old(g_nsteps) <= 1u)
 __CPROVER_ensures(g_nsteps != __CPROVER_old(g_nsteps) ==> (PEQ(g_step_old, __CPROVER_old(*lrs_ref)) && T_STAB(g_step_old, g_step_new)))
 __CPROVER_ensures(S_OK(g_q.anchor_) && (g_own == NULL || NOREF(g_q.anchor_, g_own)))
-__CPROVER_ensures(OWN_INTACT)
+__CPROVER_ensures(OWN_INTACT && GHOSTS_OK)
 __CPROVER_assigns(STAB_ASSIGNS)
 //@LIFT stabilize
 #undef lrs
@@ -308,7 +329,7 @@ __CPROVER_ensures(__CPROVER_return_value ==> (lin && lin_old.ltag == stable && (
 __CPROVER_ensures(__CPROVER_return_value ==> (*r == g_lin_ldata && g_retired == 1 && g_retired_node == lin_old.left))
 /* false only after reading an empty anchor, without having taken a step or retired anything */
 __CPROVER_ensures(!__CPROVER_return_value ==> (!lin && g_retired == 0 && g_last_read.left == NULL))
-__CPROVER_assigns(*r, g_q.anchor_, POOL_OBJECTS, lin, lin_old, lin_new, g_lin_lr, g_lin_rl, g_lin_nr, g_lin_nl, g_lin_ldata, g_lin_rdata, g_nsteps, g_step_old, g_step_new, g_last_read, g_obs, g_inward_seen, g_validated, g_own, g_retired, g_retired_node)
+__CPROVER_assigns(*r, g_q.anchor_, POOL_OBJECTS, lin, lin_old, lin_new, g_lin_lr, g_lin_rl, g_lin_nr, g_lin_nl, g_lin_ldata, g_lin_rdata, g_lin_owndata, g_nsteps, g_step_old, g_step_new, g_last_read, g_obs, g_inward_seen, g_bl_idx, g_bl_left, g_bl_seen, g_validated, g_own, g_retired, g_retired_node)
 //@LIFT pop_left
 #endif
 
@@ -319,7 +340,7 @@ __CPROVER_requires(self == &g_q && S_OK(g_q.anchor_) && !lin && g_retired == 0 &
 __CPROVER_ensures(__CPROVER_return_value ==> (lin && lin_old.ltag == stable && (T_POP_LAST(lin_old, lin_new) || T_POP_RIGHT(lin_old, lin_new, g_lin_rl))))
 __CPROVER_ensures(__CPROVER_return_value ==> (*r == g_lin_rdata && g_retired == 1 && g_retired_node == lin_old.right))
 __CPROVER_ensures(!__CPROVER_return_value ==> (!lin && g_retired == 0 && g_last_read.right == NULL))
-__CPROVER_assigns(*r, g_q.anchor_, POOL_OBJECTS, lin, lin_old, lin_new, g_lin_lr, g_lin_rl, g_lin_nr, g_lin_nl, g_lin_ldata, g_lin_rdata, g_nsteps, g_step_old, g_step_new, g_last_read, g_obs, g_inward_seen, g_validated, g_own, g_retired, g_retired_node)
+__CPROVER_assigns(*r, g_q.anchor_, POOL_OBJECTS, lin, lin_old, lin_new, g_lin_lr, g_lin_rl, g_lin_nr, g_lin_nl, g_lin_ldata, g_lin_rdata, g_lin_owndata, g_nsteps, g_step_old, g_step_new, g_last_read, g_obs, g_inward_seen, g_bl_idx, g_bl_left, g_bl_seen, g_validated, g_own, g_retired, g_retired_node)
 //@LIFT pop_right
 #endif
 
@@ -329,10 +350,10 @@ bool push_left(struct deque *self, T data)
 __CPROVER_requires(self == &g_q && S_OK(g_q.anchor_) && !lin && g_own == NULL && g_allocs == 0)
 /* the new node n (carrying `data`) is published by exactly one step from a STABLE anchor: empty -> (n, n, stable),
  * otherwise (l, r, stable) -> (n, r, lpush) with n->right == l set before the step */
-__CPROVER_ensures(__CPROVER_return_value ==> (lin && g_allocs == 1 && lin_old.ltag == stable && lin_new.left != NULL && DATA_OF(lin_new.left) == data))
+__CPROVER_ensures(__CPROVER_return_value ==> (lin && g_allocs == 1 && lin_old.ltag == stable && lin_new.left != NULL && g_lin_owndata == data))
 __CPROVER_ensures(__CPROVER_return_value ==> (T_PUSH_EMPTY(lin_old, lin_new, lin_new.left) || (T_PUSH_LEFT(lin_old, lin_new, lin_new.left) && g_lin_nr == lin_old.left)))
 __CPROVER_ensures(!__CPROVER_return_value ==> !lin)
-__CPROVER_assigns(g_q.anchor_, POOL_OBJECTS, lin, lin_old, lin_new, g_lin_lr, g_lin_rl, g_lin_nr, g_lin_nl, g_lin_ldata, g_lin_rdata, g_nsteps, g_step_old, g_step_new, g_last_read, g_obs, g_inward_seen, g_validated, g_own, g_own_data, g_own_ll, g_own_lr, g_allocs)
+__CPROVER_assigns(g_q.anchor_, POOL_OBJECTS, lin, lin_old, lin_new, g_lin_lr, g_lin_rl, g_lin_nr, g_lin_nl, g_lin_ldata, g_lin_rdata, g_lin_owndata, g_nsteps, g_step_old, g_step_new, g_last_read, g_obs, g_inward_seen, g_bl_idx, g_bl_left, g_bl_seen, g_validated, g_own, g_own_data, g_own_ll, g_own_lr, g_allocs)
 //@LIFT push_left
 #endif
 
@@ -340,10 +361,10 @@ __CPROVER_assigns(g_q.anchor_, POOL_OBJECTS, lin, lin_old, lin_new, g_lin_lr, g_
 //@FUNC
 bool push_right(struct deque *self, T data)
 __CPROVER_requires(self == &g_q && S_OK(g_q.anchor_) && !lin && g_own == NULL && g_allocs == 0)
-__CPROVER_ensures(__CPROVER_return_value ==> (lin && g_allocs == 1 && lin_old.ltag == stable && lin_new.right != NULL && DATA_OF(lin_new.right) == data))
+__CPROVER_ensures(__CPROVER_return_value ==> (lin && g_allocs == 1 && lin_old.ltag == stable && lin_new.right != NULL && g_lin_owndata == data))
 __CPROVER_ensures(__CPROVER_return_value ==> (T_PUSH_EMPTY(lin_old, lin_new, lin_new.right) || (T_PUSH_RIGHT(lin_old, lin_new, lin_new.right) && g_lin_nl == lin_old.right)))
 __CPROVER_ensures(!__CPROVER_return_value ==> !lin)
-__CPROVER_assigns(g_q.anchor_, POOL_OBJECTS, lin, lin_old, lin_new, g_lin_lr, g_lin_rl, g_lin_nr, g_lin_nl, g_lin_ldata, g_lin_rdata, g_nsteps, g_step_old, g_step_new, g_last_read, g_obs, g_inward_seen, g_validated, g_own, g_own_data, g_own_ll, g_own_lr, g_allocs)
+__CPROVER_assigns(g_q.anchor_, POOL_OBJECTS, lin, lin_old, lin_new, g_lin_lr, g_lin_rl, g_lin_nr, g_lin_nl, g_lin_ldata, g_lin_rdata, g_lin_owndata, g_nsteps, g_step_old, g_step_new, g_last_read, g_obs, g_inward_seen, g_bl_idx, g_bl_left, g_bl_seen, g_validated, g_own, g_own_data, g_own_ll, g_own_lr, g_allocs)
 //@LIFT push_right
 #endif
 
@@ -352,14 +373,14 @@ __CPROVER_assigns(g_q.anchor_, POOL_OBJECTS, lin, lin_old, lin_new, g_lin_lr, g_
 bool empty(struct deque *self)
 __CPROVER_requires(self == &g_q && S_OK(g_q.anchor_))
 __CPROVER_ensures(__CPROVER_return_value == (g_last_read.left == NULL))
-__CPROVER_assigns(g_q.anchor_, POOL_OBJECTS, g_last_read, g_obs, g_validated)
+__CPROVER_assigns(g_q.anchor_, POOL_OBJECTS, g_last_read, g_obs, g_validated, g_bl_idx, g_inward_seen)
 //@LIFT empty
 #endif
 
 static void init_ghosts(void)
 {
-  lin = false; lin_old = mk_pair(NULL, NULL, 0, 0); lin_new = lin_old; g_lin_lr = NULL; g_lin_rl = NULL; g_lin_nr = NULL; g_lin_nl = NULL; g_lin_ldata = 0; g_lin_rdata = 0;
-  g_nsteps = 0; g_step_old = lin_old; g_step_new = lin_old; g_last_read = lin_old; g_inward_seen = NULL; g_validated = false;
+  lin = false; lin_old = mk_pair(NULL, NULL, 0, 0); lin_new = lin_old; g_lin_lr = NULL; g_lin_rl = NULL; g_lin_nr = NULL; g_lin_nl = NULL; g_lin_ldata = 0; g_lin_rdata = 0; g_lin_owndata = 0;
+  g_nsteps = 0; g_step_old = lin_old; g_step_new = lin_old; g_last_read = lin_old; g_inward_seen = NULL; g_bl_idx = -1; g_bl_left = false; g_bl_seen = mk_tptr(NULL, 0); g_validated = false;
   g_own = NULL; g_own_data = 0; g_own_ll = NULL; g_own_lr = NULL; g_allocs = 0; g_retired = 0; g_retired_node = NULL; g_quiescent = false;
 }
 
